@@ -306,13 +306,32 @@ func VerifH07d() {
 func VerifH08c() {
 	np := vChoose(vParam("PARAMS", 3) + 1)
 	oids := make([]oid.Oid, np)
+	declared := make([]oid.Oid, np) // what the handler declares, kept by the handler
 	for i := range oids {
 		oids[i] = oid.Oid(nondetU32())
+		declared[i] = oids[i]
 	}
-	w := vNewWorld(nil, 64)
 	fn := func(ctx context.Context, dw DataWriter, params []Parameter) error { return nil }
-	st := NewStatement(fn, WithParameters(oids))
-	vAssert("set-ok", w.ses.Statements.Set(w.ctx, "s", st) == nil)
+	// the statement reaches the session through a real Parse whose message may
+	// pre-specify parameter types of its own (symbolic): whatever the client
+	// says there, Describe announces the handler's declaration, and the library
+	// never writes into the slice the handler handed over
+	parse := func(ctx context.Context, query string) (PreparedStatements, error) {
+		return Prepared(NewStatement(fn, WithParameters(declared))), nil
+	}
+	srv, err := NewServer(parse, MessageBufferSize(64))
+	vAssert("newserver-ok", err == nil)
+	w := &vWorld{srv: srv}
+	w.conn = vNewConn(nil)
+	w.ses, w.rd, w.wr = vSession(srv, w.conn)
+	w.ctx = vCtx(srv)
+	pre := vChoose(3)
+	pbody := vCat(vCStr([]byte("s")), vCStr([]byte("q")), vU16(pre))
+	for k := 0; k < pre; k++ {
+		pbody = append(pbody, vU32(nondetU32())...)
+	}
+	vAssert("parse-ok", w.ses.handleParse(w.ctx, &buffer.Reader{Msg: pbody, MaxMessageSize: 64}, w.wr) == nil)
+	w.conn.out = nil
 	desc := vCat([]byte{'S'}, vCStr([]byte("s")))
 	vAssert("describe-ok", w.ses.handleDescribe(w.ctx, &buffer.Reader{Msg: desc, MaxMessageSize: 64}, w.wr) == nil)
 	msgs, ok := vFrames(w.conn.out)
@@ -321,9 +340,13 @@ func VerifH08c() {
 	vAssert("parameter-count", vBE16(b, 0) == np)
 	for i := 0; i < np; i++ {
 		vAssert("parameter-oid", vBE32(b, 2+4*i) == uint32(oids[i]))
+		vAssert("handler-declaration-untouched", declared[i] == oids[i])
 	}
 	if np == 2 {
 		vReach("two-declared-parameters")
+	}
+	if pre > 0 && np > 0 {
+		vReach("parse-prespecifies-types")
 	}
 }
 
